@@ -6,7 +6,7 @@ dir_unix.c → dir_rec.c → dir_hl.c → dir_tree_iterator.c → glob.c:scan_di
 `sorted = true` is the model of the tree with fixes/C11-sorted-readdir.patch (native iterator sorts every
 directory); `sorted = false` is the code as pinned, for which the full statement is false (Sqfs/Witness/C11.lean).
 -/
-import Sqfs.Proofs.FsTreePost
+import Sqfs.Proofs.FsTreeSorted
 
 namespace Sqfs.C11
 open Sqfs.FsTree
@@ -91,6 +91,40 @@ link itself — what the hard-link filter hands out (it only ever records primar
 theorem numbering_deterministic {links₁ links₂ : List Path} (hp : links₁.Perm links₂) (tree : TNode)
     (hflat : FlatLinks tree links₁) : postProcess tree links₁ = postProcess tree links₂ :=
   postProcess_perm hp tree hflat
+
+/-- Whatever the enumeration order, the options and the iterator (pinned or repaired): the tree `--pack-dir` hands to
+the serialiser has **every** directory strictly sorted by `strcmp` (so names are pairwise different and the order of
+directory entries, of the DFS numbering and of the file list is fixed by the names alone). -/
+theorem scan_tree_sorted (sorted : Bool) (d : Defaults) (cfg : Cfg) (fnm : Fnm) (rootDev : Nat) (e : List HNode)
+    (r : Result) (h : packDir sorted d cfg fnm rootDev e = some r) : r.tree.AllSorted := by
+  simp only [packDir] at h
+  split at h
+  · cases h
+  · rename_i t links hs
+    have ht := scanInto_allSorted (initRoot_allSorted d) hs
+    simp only [postProcess] at h
+    split at h
+    · cases h
+    · rename_i t2 hres
+      split at h
+      · cases h
+      · cases h
+        exact resolveHardLinks_allSorted _ _ _ _ ht hres
+
+/-- … and a `glob` line keeps a sorted tree sorted. -/
+theorem glob_tree_sorted (sorted : Bool) (d : Defaults) (cfg : Cfg) (fnm : Fnm) (rootDev : Nat) (e : List HNode)
+    (target : Path) (tree : TNode) (links : List Path) (ht : tree.AllSorted) (t' : TNode) (l' : List Path)
+    (h : globInto sorted d cfg fnm rootDev e target tree links = some (t', l')) : t'.AllSorted := by
+  simp only [globInto] at h
+  split at h
+  · cases h
+  · rename_i t1 hmk
+    have h1 := (mkdirImplicit_allSorted d target tree t1 ht hmk).1
+    split at h
+    · cases h
+    · split at h
+      · cases h
+      · exact scanInto_allSorted h1 h
 
 /-! ### the hypotheses are satisfiable, the conclusion is not trivial -/
 
